@@ -79,29 +79,35 @@ def write_if_changed(path, content):
     return True
 
 
-def gen_extract_v():
-    """Extract/Extract.v is generated from model/roots/*.txt (one qualified
-    root per line) so that components can be added independently."""
+def model_names():
+    return sorted(os.path.basename(f)[:-4] for f in
+                  glob.glob(os.path.join(VERIF, "model", "roots", "*.txt")))
+
+
+def extract_source(name):
+    """The extraction script of one component, generated from
+    model/roots/<name>.txt (one qualified root per line).  One extraction per
+    component, so that a component that no longer compiles affects only its
+    own properties.  Returns (source, list of .vo targets it needs)."""
     roots, mods = [], set()
-    for f in sorted(glob.glob(os.path.join(VERIF, "model", "roots", "*.txt"))):
-        for line in open(f):
-            line = line.strip()
-            if line and not line.startswith("#"):
-                roots.append(line)
-                mods.add(line.rsplit(".", 1)[0])
-    src = ("(* GENERATED from model/roots/*.txt by lib/runner.py.  Extraction of the\n"
-           "   executable models: ExtrOcamlBasic only; Z, positive, N, nat, ascii and\n"
+    for line in open(os.path.join(VERIF, "model", "roots", name + ".txt")):
+        line = line.strip()
+        if line and not line.startswith("#"):
+            roots.append(line)
+            mods.add(line.rsplit(".", 1)[0])
+    src = ("(* GENERATED from model/roots/%s.txt by lib/runner.py.  Extraction of the\n"
+           "   executable model: ExtrOcamlBasic only; Z, positive, N, nat, ascii and\n"
            "   string stay the extracted inductive types; no Extract Constant. *)\n"
            "Require Extraction.\nRequire Import ExtrOcamlBasic.\n"
-           "From Galene Require " + " ".join(sorted(mods)) + ".\n"
+           "From Galene Require " % name + " ".join(sorted(mods)) + ".\n"
            "Extraction Blacklist String List Int Char Bool Nat Seq Option Bytes Stack Queue Result Either.\n"
            "Set Extraction Optimize.\n"
            "Separate Extraction\n  " + "\n  ".join(roots) + ".\n")
-    write_if_changed(os.path.join(THEORIES, "Extract", "Extract.v"), src)
+    targets = ["theories/" + m.replace(".", "/") + ".vo" for m in sorted(mods)]
+    return src, targets
 
 
 def coq_makefile():
-    gen_extract_v()
     files = sorted(os.path.relpath(f, COQ) for f in
                    glob.glob(os.path.join(THEORIES, "**", "*.v"), recursive=True))
     cp = "-Q theories Galene\n-arg -w -arg -notation-overridden\n" + "\n".join(files) + "\n"
@@ -184,42 +190,56 @@ def stale(stamp, sources):
     return any(os.path.getmtime(s) > t for s in sources if os.path.exists(s))
 
 
-def build_model():
-    """Extract the Coq models to OCaml and build the model driver."""
-    rc, out = coq_make(["theories/Extract/Extract.vo"])
+def build_model(name):
+    """Extracts the Coq model of one component to OCaml and builds its driver
+    in work/model_<name>/."""
+    esrc, targets = extract_source(name)
+    rc, out = coq_make(targets)
     if rc != 0:
         return False, out
-    ext = os.path.join(VERIF, "model", "extracted")
-    os.makedirs(ext, exist_ok=True)
-    stamp = os.path.join(ext, ".stamp")
-    srcs = glob.glob(os.path.join(THEORIES, "Model", "*.vo")) + \
+    d = os.path.join(WORK, "model_" + name)
+    os.makedirs(d, exist_ok=True)
+    src = os.path.join(VERIF, "model")
+    glue = ["util.ml", "registry.ml", "main.ml", "comp_%s.ml" % name]
+    for g in glue:
+        c = open(os.path.join(src, g)).read()
+        write_if_changed(os.path.join(d, g), c)
+    write_if_changed(os.path.join(d, "all_components.ml"),
+                     "let init () = Comp_%s.init ()\n" % name)
+    write_if_changed(os.path.join(d, "dune-project"), "(lang dune 2.9)\n")
+    write_if_changed(os.path.join(d, "dune"),
+                     "(executable\n (name main)\n (flags (:standard -w -a)))\n")
+    ev = os.path.join(d, "Extract_%s.v" % name)
+    changed = write_if_changed(ev, esrc)
+    stamp = os.path.join(d, ".stamp")
+    vos = glob.glob(os.path.join(THEORIES, "Model", "*.vo")) + \
         glob.glob(os.path.join(THEORIES, "Generated", "*.vo")) + \
-        glob.glob(os.path.join(THEORIES, "Lib", "*.vo")) + \
-        [os.path.join(THEORIES, "Extract", "Extract.v")]
-    if stale(stamp, srcs):
-        for f in glob.glob(os.path.join(ext, "*.ml*")):
-            os.remove(f)
-        os.makedirs(os.path.join(WORK, "pa"), exist_ok=True)
-        rc, out = sh(["coqc", "-Q", THEORIES, "Galene", "-w", "-notation-overridden",
-                      "-o", os.path.join(WORK, "pa", "Extract.vo"),
-                      os.path.join(THEORIES, "Extract", "Extract.v")], cwd=ext, timeout=1200)
+        glob.glob(os.path.join(THEORIES, "Lib", "*.vo"))
+    if changed or stale(stamp, vos):
+        for f in glob.glob(os.path.join(d, "*.ml*")):
+            if os.path.basename(f) not in glue + ["all_components.ml"]:
+                os.remove(f)
+        rc, out = sh(["coqc", "-Q", THEORIES, "Galene", "-w", "-notation-overridden", ev],
+                     cwd=d, timeout=1200)
         if rc != 0:
             return False, out
         open(stamp, "w").write("ok")
-    sh(["sh", "gen_components.sh"], cwd=os.path.join(VERIF, "model"))
-    rc, out = sh(["dune", "build", "./main.exe"], cwd=os.path.join(VERIF, "model"), timeout=1200)
+    rc, out = sh(["dune", "build", "./main.exe"], cwd=d, timeout=1200)
     return rc == 0, out
 
 
-def build_drv():
+def model_exe(name):
+    return os.path.join(WORK, "model_" + name, "_build", "default", "main.exe")
+
+
+def build_drv(name):
     h = os.path.join(VERIF, "harness")
     shutil.copyfile(os.path.join(REPO, "go.sum"), os.path.join(h, "go.sum"))
-    rc, out = sh(["go", "build", "-tags", "verif", "-o", os.path.join(WORK, "drv"), "./cmd/drv"],
+    rc, out = sh(["go", "build", "-tags", "verif", "-o", os.path.join(WORK, "drv_" + name), "./cmd/" + name],
                  cwd=h, env=goenv(), timeout=1800)
     return rc == 0, out
 
 
-MODEL_EXE = os.path.join(VERIF, "model", "_build", "default", "main.exe")
 
 
 # ---------------------------------------------------------------- known findings
@@ -260,7 +280,7 @@ def run_driver(prop, d, tier, seed, budget=None):
     n = budget if budget is not None else d.get(tier, d.get("quick", 100))
     trace = os.path.join(WORK, "%s.%s.trace" % (prop, name))
     t0 = time.time()
-    rc, out = sh([os.path.join(WORK, "drv"), "-seed", str(seed), "-n", str(n), "-out", trace, name],
+    rc, out = sh([os.path.join(WORK, "drv_" + name), "-seed", str(seed), "-n", str(n), "-out", trace],
                  timeout=d.get("timeout", 3000), env=goenv())
     res = {"driver": name, "n": n, "seed": seed, "trace": trace, "rc": rc, "out": out[-2000:],
            "failures": [], "divergences": [], "summary": {}, "wall_s": 0}
@@ -278,7 +298,7 @@ def run_driver(prop, d, tier, seed, budget=None):
     if d.get("model", True):
         mout = trace + ".model"
         with open(mout, "w") as fo:
-            p = subprocess.run([MODEL_EXE, trace], stdout=fo, stderr=subprocess.PIPE, timeout=3000)
+            p = subprocess.run([model_exe(d.get("model_name", name)), trace], stdout=fo, stderr=subprocess.PIPE, timeout=3000)
         if p.returncode != 0:
             res["divergences"].append({"history": "?", "line": 0, "impl": "", "model": "model driver failed: " + p.stderr.decode()[-500:], "ops": []})
         else:
@@ -380,12 +400,16 @@ def check_property(prop, tier, seed):
                 proof_broken = "theorems depend on undeclared axioms: " + ", ".join(extra)
 
     # 3. correspondence + monitors
-    ok, out = build_drv()
     drv_broken = None
-    if not ok:
-        drv_broken = "the correspondence harness no longer builds against /repo: " + out[-1500:]
-    okm, outm = build_model()
-    model_broken = None if okm else "the extracted model no longer builds: " + outm[-1500:]
+    model_broken = None
+    for d in cfg["drivers"]:
+        ok, out = build_drv(d["name"])
+        if not ok:
+            drv_broken = "the correspondence driver %s no longer builds against /repo: %s" % (d["name"], out[-1500:])
+        if d.get("model", True):
+            okm, outm = build_model(d.get("model_name", d["name"]))
+            if not okm:
+                model_broken = "the extracted model %s no longer builds: %s" % (d.get("model_name", d["name"]), outm[-1500:])
 
     runs = []
     total_eval = 0; total_ops = 0; nontriv = 0; compared = 0
@@ -523,10 +547,12 @@ def replay(prop, path):
     cfg = props.PROPS[prop]
     rp = json.load(open(path))
     ensure_dirs()
-    ok, out = build_drv()
-    if not ok:
-        log("harness does not build"); return 1
-    okm, _ = build_model()
+    for d in cfg["drivers"]:
+        ok, out = build_drv(d["name"])
+        if not ok:
+            log("harness does not build"); return 1
+        if d.get("model", True):
+            build_model(d.get("model_name", d["name"]))
     if "driver" not in rp:
         log("replay names no input: %s" % rp.get("broken", ""))
         # re-run the quick check instead
@@ -560,12 +586,23 @@ def setup():
     rc, out = coq_make([], timeout=3400)
     if rc != 0:
         log("coq build failed"); return 1
-    ok, out = build_model()
-    if not ok:
-        log("model build failed"); return 1
-    ok, out = build_drv()
-    if not ok:
-        log("harness build failed"); return 1
+    bad = 0
+    done = set()
+    for pid, cfg in sorted(props.PROPS.items()):
+        for d in cfg["drivers"]:
+            if d["name"] not in done:
+                done.add(d["name"])
+                ok, out = build_drv(d["name"])
+                if not ok:
+                    log("driver %s failed to build" % d["name"]); bad += 1
+            mn = d.get("model_name", d["name"])
+            if d.get("model", True) and ("m:" + mn) not in done:
+                done.add("m:" + mn)
+                ok, out = build_model(mn)
+                if not ok:
+                    log("model %s failed to build" % mn); bad += 1
+    if bad:
+        return 1
     log("setup ok")
     return 0
 
